@@ -200,6 +200,12 @@ impl<KK: KeyKind> KeyKind for FaultK<KK> {
 
 /// Deterministic valid secret for a scheme from a 64-bit label.
 pub fn secret_from(scheme: Scheme, label: u64) -> [u8; 32] {
+    // labels with the top bit set name the NEGATION (n - k) of the secp256k1 key of the label without it:
+    // same x coordinate, other parity
+    if label >> 63 == 1 && scheme == Scheme::Secp {
+        let k = secret_from(scheme, label & !(1u64 << 63));
+        return crate::refimpl::u256::sub(&crate::refimpl::u256::N, &k);
+    }
     let mut s = label ^ 0x5851f42d4c957f2d;
     let mut next = || {
         s = s.wrapping_add(0x9e3779b97f4a7c15);
